@@ -424,7 +424,19 @@ func (req *SrvReq) Respond() {
 	 * reply queued, can a Tflush or a request reusing the tag miss it */
 	conn.Lock()
 	nextreq := req.prev
-	if nextreq != nil {
+	if req.next != nil {
+		/* a request answered (cancelled by a Tflush) while it was waiting behind an
+		 * older one with the same tag: take it out of the chain, the older one stays
+		 * in the table and nobody is started */
+		req.next.prev = req.prev
+		if req.prev != nil {
+			req.prev.next = req.next
+		} else {
+			conn.reqs[req.Tc.Tag] = req.next
+		}
+		nextreq = nil
+		flushreqs = req.flushreq
+	} else if nextreq != nil {
 		nextreq.next = nil
 		// if there are flush requests, move them to the next request
 		if req.flushreq != nil {
